@@ -24,6 +24,14 @@ TRUSTED = ["models: coq/theories/MiscEnc.v, Blocks.v; LP read-back harness/lpdum
 SO = {"threads": 1}
 
 
+def report_corr(ctx, what, rep):
+    """correspondence disagreement (no failing input by itself): at most 5 replay files per run, so that
+    the concrete E2 verdicts of the same run are never crowded out of the report cap"""
+    ctx.count("correspondence_reports", "total")
+    if ctx.engines["correspondence_reports"]["total"] <= 5:
+        ctx.report(what, rep, concrete=False)
+
+
 def describe(kw):
     d = dict(kw)
     if "weight_type" in d:
@@ -172,8 +180,8 @@ def mgs_engine(ctx):
             ctx.count("E1_MinGenSet_LP", "cases"); ctx.count("E1_MinGenSet_LP", "rows_compared", len(impl["rows"]))
             if d:
                 ctx.count("E1_MinGenSet_LP", "disagreements")
-                ctx.report(f"E1 correspondence broken: LP of MinGenSet (k={k}) differs from MiscEnc.encode_mgs: " + "; ".join(d[:3]),
-                           dict(rep, k=k, diff=d), concrete=False)
+                report_corr(ctx, f"E1 correspondence broken: LP of MinGenSet (k={k}) differs from MiscEnc.encode_mgs: " + "; ".join(d[:3]),
+                            dict(rep, k=k, diff=d))
             else:
                 ctx.count("E1_MinGenSet_LP", "agreements")
         # ---- E4 k sequence with the real statuses
@@ -185,8 +193,7 @@ def mgs_engine(ctx):
         got = (tried, len(m.get_solution()) if r["ok"] else None)
         if (mt, mres) != got:
             ctx.count("E4_k_sequence", "disagreements")
-            ctx.report(f"E4 correspondence broken: MinGenSet.solve tried {got}, MiscEnc.mgs_loop {(mt, mres)}", dict(rep, statuses=r["statuses"]),
-                       concrete=False)
+            report_corr(ctx, f"E4 correspondence broken: MinGenSet.solve tried {got}, MiscEnc.mgs_loop {(mt, mres)}", dict(rep, statuses=r["statuses"]))
         else:
             ctx.count("E4_k_sequence", "agreements")
         # ---- E2
@@ -209,8 +216,8 @@ def mgs_engine(ctx):
                 got2 = (tried2, len(r2["m"].get_solution()) if r2["ok"] else None)
                 if (mt2, mres2) != got2:
                     ctx.count("E4_k_sequence_injected", "disagreements")
-                    ctx.report(f"E4 correspondence broken under injected status: implementation {got2}, model {(mt2, mres2)}",
-                               dict(rep, inject={kopt: st_inj}), concrete=False)
+                    report_corr(ctx, f"E4 correspondence broken under injected status: implementation {got2}, model {(mt2, mres2)}",
+                                dict(rep, inject={kopt: st_inj}))
                 else:
                     ctx.count("E4_k_sequence_injected", "agreements")
                 if r2["ok"]:
@@ -226,7 +233,7 @@ def mgs_engine(ctx):
         ctx.count("E3_preprocess", "cases")
         if mod != impl_set:
             ctx.count("E3_preprocess", "disagreements")
-            ctx.report(f"E3 correspondence broken: MinGenSet.__init__ keeps {impl_set}, MiscEnc.mgs_preprocess {mod}", rep, concrete=False)
+            report_corr(ctx, f"E3 correspondence broken: MinGenSet.__init__ keeps {impl_set}, MiscEnc.mgs_preprocess {mod}", rep)
         else:
             ctx.count("E3_preprocess", "agreements")
 
@@ -302,7 +309,7 @@ def msc_engine(ctx):
         ctx.count("E1_MinSetCover_LP", "cases"); ctx.count("E1_MinSetCover_LP", "rows_compared", len(impl["rows"]))
         if d:
             ctx.count("E1_MinSetCover_LP", "disagreements")
-            ctx.report("E1 correspondence broken: LP of MinSetCover differs from MiscEnc.encode_msc: " + "; ".join(d[:3]), dict(rep, diff=d), concrete=False)
+            report_corr(ctx, "E1 correspondence broken: LP of MinSetCover differs from MiscEnc.encode_msc: " + "; ".join(d[:3]), dict(rep, diff=d))
         else:
             ctx.count("E1_MinSetCover_LP", "agreements")
         try:
